@@ -57,19 +57,47 @@ EXPLANATION = ("Theorems: the counting invariant (stored+1 = references in fligh
 
 N_OBJS = 3
 
+
+class Blocked(Exception):
+    """a step of the real code did not come to an end (a request nobody will ever answer)"""
+
+
+def bounded(fn, seconds=20.0):
+    """run fn() on a helper thread and wait at most `seconds` of wall time for it: ("ok", result), ("raised", exc) or
+    ("blocked", None).  A blocked helper is abandoned (daemon thread); the deterministic network's sides are names, not
+    threads, so the helper can act as side A."""
+    import threading
+    box = {}
+
+    def body():
+        try:
+            box["ok"] = fn()
+        except BaseException as ex:  # noqa
+            box["raised"] = ex
+    th = threading.Thread(target=body, daemon=True, name="bounded-step")
+    th.start()
+    th.join(seconds)
+    if th.is_alive():
+        return "blocked", None
+    if "raised" in box:
+        return "raised", box["raised"]
+    return "ok", box.get("ok")
+
+
 # what is lent.  The machine does not care what an object is; the code does in a few places (`get_id_pack` gives a
 # class the instance id 0, `_netref_factory` takes another path for it, a finalizer could treat it differently).
 KIND_MAKERS = {
     "set": lambda: {1, 2}, "list": lambda: [1, 2], "func": lambda: (lambda: 0), "dict": lambda: {"a": 1},
+    "empty_list": lambda: [], "empty_dict": lambda: {}, "empty_set": lambda: set(),     # falsy on the owner's side
     "type_list": lambda: list, "type_dict": lambda: dict,            # builtin TYPE objects: id pack (name, id(cls), 0)
     "dynclass": lambda: type("Dyn", (object,), {"x": 1}),            # a class created at run time
 }
 IMMORTAL = ("type_list", "type_dict")                                 # builtin types never die: no liveness claim
 PALETTES = {
-    1: [["set"], ["type_list"], ["dynclass"], ["list"], ["func"], ["type_dict"]],
-    2: [["set", "list"], ["type_list", "dynclass"], ["dynclass", "func"], ["dict", "type_dict"]],
+    1: [["set"], ["type_list"], ["dynclass"], ["list"], ["func"], ["type_dict"], ["empty_list"], ["empty_set"]],
+    2: [["set", "list"], ["type_list", "dynclass"], ["dynclass", "func"], ["dict", "type_dict"], ["empty_dict", "empty_set"]],
     3: [["set", "list", "func"], ["type_list", "dynclass", "set"], ["dynclass", "dict", "type_dict"],
-        ["func", "type_list", "dynclass"]],
+        ["func", "type_list", "dynclass"], ["empty_list", "empty_set", "empty_dict"]],
 }
 
 
@@ -107,6 +135,27 @@ class World:
         self._cm.__enter__()
         self.ca, self.cb = self.net.connect_pair(compress=False)
         self.n = n
+        # manual delivery: nobody answers while a side waits.  A wait on an empty inbox therefore IS the time passing:
+        # move the virtual clock to the wait's deadline, so that a synchronous request issued where none should be
+        # (e.g. from inside `_unbox`) runs into its own timeout instead of spinning forever
+        from rpyc.lib import Timeout
+        clock, idle = self.net.clock, [0]
+
+        def waited(op, stream, arg):
+            if op != "poll" or stream.inbox or stream._closed or stream.peer._closed:
+                idle[0] = 0
+                return
+            t = Timeout(arg)
+            if t.finite:
+                if t.tmax > clock.now:
+                    clock.now = t.tmax
+            else:
+                idle[0] += 1
+                if idle[0] > 2000:
+                    idle[0] = 0
+                    raise Blocked("a side waits without deadline for a message nobody will send")
+        for st in self.net.streams.values():
+            st.fault = waited
         self.kinds = list(kinds) if kinds else palette(n, 0)
         # a class is cyclic garbage: believing it dead takes a full collection (milliseconds); the correspondence asks for
         # that on a sample of its histories, the oracle and replays always (the table checks are made on every history)
@@ -268,7 +317,28 @@ class World:
                     return "closed"
                 self.held.clear()
                 del self.results[:]
-                first.close()
+                hook = o[2] if len(o) > 2 else None
+                if hook:
+                    # the application configured a `before_closed` hook to say goodbye: it returns ("ok"), fails on its
+                    # own ("raise"), or talks to a peer that has vanished without a closing handshake ("eof")
+                    calls = []
+                    first._remote_root = first._remote_root or object()    # `close()` passes `self.root` to the hook
+                    if hook == "eof":
+                        (self.net.streams["B"] if first is self.ca else self.net.streams["A"]).close()
+
+                    def before_closed(root, first=first, hook=hook):
+                        calls.append(hook)
+                        if hook == "raise":
+                            raise ValueError("the hook failed")
+                        if hook == "eof":
+                            first.async_request(self.consts.HANDLE_PING, "bye")
+                    first._config["before_closed"] = before_closed
+                try:
+                    first.close()
+                except Exception:  # noqa  (a failing hook may surface; what was held must be released all the same)
+                    pass
+                if hook and not calls:
+                    self.err.append("the configured before_closed hook was not called")
                 for _ in range(300):                # let the other end notice
                     if second.closed:
                         break
@@ -570,7 +640,7 @@ def closing_phase(w, run_op):
             break
 
 
-def final_phase(w, run_op, n, close_side):
+def final_phase(w, run_op, n, close_side, close_hook=None):
     """deliver what is in flight; the owner's application forgets its objects; the peer uses every proxy it holds,
     then drops everything; everything is delivered; close.  The statement's own observations are made on the way."""
     drain(w, run_op)
@@ -590,14 +660,18 @@ def final_phase(w, run_op, n, close_side):
             w.err.append("object %d (%s) still in the owner's table after everything was dropped and delivered" % (k, w.kinds[k]))
         if w.alive_after_gc(k):
             w.err.append("object %d (%s) not collectable after everything was dropped and delivered" % (k, w.kinds[k]))
-    run_op(["close", close_side])
+    run_op(["close", close_side] + ([close_hook] if close_hook else []))
     for name, conn in (("A", w.ca), ("B", w.cb)):
         if conn._local_objects._dict or conn._proxy_cache._dict:
             w.err.append("after close, side %s still holds %d objects / %d proxies" % (
                 name, len(conn._local_objects._dict), len(conn._proxy_cache._dict)))
 
 
-def run_history(ops, n=N_OBJS, gen=None, length=0, final=True, close_side="A", kinds=None, class_liveness=True):
+HOOKS = [None, "ok", "raise", "eof"]
+
+
+def run_history(ops, n=N_OBJS, gen=None, length=0, final=True, close_side="A", kinds=None, class_liveness=True,
+                close_hook=None):
     """run a history on the real code. `ops` fixed prefix; then `gen(world)` supplies up to `length` more ops.
     Returns (ops actually run, snapshots, real-only findings, world stats)."""
     w = World(n, kinds, class_liveness)
@@ -629,11 +703,16 @@ def run_history(ops, n=N_OBJS, gen=None, length=0, final=True, close_side="A", k
             return done, snaps, list(dict.fromkeys(w.err))
         if final and not w.closed:
             try:
-                final_phase(w, run_op, n, close_side)
+                final_phase(w, run_op, n, close_side, close_hook)
             except Abort:
                 pass
             except Exception as ex:  # noqa
                 w.err.append("the closing phase could not be completed: %s" % type(ex).__name__.split(".")[-1])
+        if w.closed:
+            for name, conn in (("A", w.ca), ("B", w.cb)):
+                if conn._local_objects._dict or conn._proxy_cache._dict:
+                    w.err.append("after the connection ended, side %s still holds %d objects / %d proxies" % (
+                        name, len(conn._local_objects._dict), len(conn._proxy_cache._dict)))
         return done, snaps, list(dict.fromkeys(w.err))
     finally:
         w.teardown()
@@ -715,6 +794,12 @@ CORPUS = [
     # an echoed hand-back whose result expired; the proxy is also inside a ready result
     [["fetch", 1], ["dP"], ["dO"], ["collect"], ["back", 1, True], ["fetch", [1]], ["expire", 0], ["dP"], ["dP"], ["dO"], ["dO"],
      ["drop", 1], ["collect"], ["expire", 0]],
+    # the connection ends through close() with a before_closed hook that fails / meets a vanished peer, traffic in flight
+    [["send", [0, 1]], ["dO"], ["fetch", 2], ["dP"], ["drop", 0], ["send", [2]], ["close", "A", "raise"], ["send", [1]], ["dP"]],
+    [["send", [0, 1]], ["dO"], ["fetch", 2], ["dP"], ["drop", 0], ["send", [2]], ["close", "A", "eof"], ["dO"], ["drop", 1]],
+    [["send", [1]], ["dO"], ["back", 1, True], ["dP"], ["close", "B", "raise"], ["dP"]],
+    [["send", [1]], ["dO"], ["back", 1, True], ["dP"], ["close", "B", "eof"], ["collect"]],
+    [["send", [0]], ["dO"], ["close", "A", "ok"], ["close", "B", "raise"]],
     # close with references, releases and results in flight, then operations on the closed pair
     [["send", [0, 1]], ["dO"], ["fetch", 2], ["dP"], ["drop", 0], ["send", [0]], ["close", "B"], ["send", [1]], ["dO"], ["dP"],
      ["drop", 1], ["collect"], ["back", 1, True], ["fetch", 0], ["expire", 0], ["close", "A"]],
@@ -738,7 +823,7 @@ def nontrivial(snaps):
 def correspondence(ctx):
     c = Corr()
     c.rule = ("histories over 3 lent objects on two real connections with manual delivery; what is lent rotates over palettes "
-              "of instances (set, list, dict, function), builtin TYPE objects (list, dict: id pack with instance id 0) and "
+              "of instances (set, list, dict, function; empty list/dict/set: falsy at their owner), builtin TYPE objects (list, dict: id pack with instance id 0) and "
               "classes created at run time (their netref class is prepared with the real get_methods/class_factory instead "
               "of the blocking INSPECT round trip; one baton-mode scenario per run does the real round trip): a fixed "
               "corpus (the crossing race both ways, multi-box, hand-back dropped in flight, result as only holder, "
@@ -755,14 +840,14 @@ def correspondence(ctx):
         for i, ops in enumerate(CORPUS):
             for kinds in PALETTES[N_OBJS]:
                 done, snaps, errs = run_history(ops, final=not any(o[0] == "close" for o in ops), close_side="AB"[i % 2],
-                                                kinds=kinds)
+                                                kinds=kinds, close_hook=HOOKS[(i + len(cases)) % 4])
                 cases.append((done, snaps, errs, "corpus", N_OBJS, kinds))
 
         def emit_for(n, tag):
             def emit(prefix):
                 kinds = palette(n, len(cases))
                 done, snaps, errs = run_history(prefix, n=n, close_side="AB"[(len(cases) // 7) % 2], kinds=kinds,
-                                                class_liveness=len(cases) % 8 == 0)
+                                                class_liveness=len(cases) % 8 == 0, close_hook=HOOKS[(len(cases) // 3) % 4])
                 cases.append((done, snaps, errs, tag, n, kinds))
             return emit
         d1, d2 = ctx.budget((5, 5), (6, 6))
@@ -780,7 +865,8 @@ def correspondence(ctx):
             length = rr.range(8, 40)
             kinds = palette(N_OBJS, i // 2)
             done, snaps, errs = run_history([], gen=lambda w: random_op(rr, w, N_OBJS), length=length,
-                                            close_side="AB"[i % 2], kinds=kinds, class_liveness=i % 8 == 0)
+                                            close_side="AB"[i % 2], kinds=kinds, class_liveness=i % 8 == 0,
+                                            close_hook=HOOKS[(i // 2) % 4])
             cases.append((done, snaps, errs, "random", N_OBJS, kinds))
             done_rand += 1
         c.extra["random_histories"] = done_rand
@@ -953,29 +1039,64 @@ def extra_release_overtakes():
             gc.collect()
             if wr() is not None:
                 errs.append("after the reply scenario the object is not collectable")
-            # (2) request form
-            t2 = Thing()
-            pack2 = get_id_pack(t2)
-            pack2 = (str(pack2[0]), pack2[1], pack2[2])
+            # (2) request forms: the handed-back proxy sits next to the fresh object, in a nested tuple behind it, and in a
+            # keyword argument behind it; async send + drop, so the stream order is CALL, DEL, (reply to the INSPECT)
+            def g_nested(fresh, pair):                 # runs at A
+                log["g_got_proxy"] = isinstance(fresh, rpyc.BaseNetref)
+                log["g_x"] = pair[0]
+                return None
+
+            def g_kw(fresh, k=None):                   # runs at A
+                log["g_got_proxy"] = isinstance(fresh, rpyc.BaseNetref)
+                log["g_x"] = k
+                return None
+
+            def h_nested(x, gfun):                     # runs at B
+                log["pending"] = rpyc.async_(gfun)(fresh_class("FreshNested")(), (x,))
+                return None
+
+            def h_kw(x, gfun):                         # runs at B
+                log["pending"] = rpyc.async_(gfun)(fresh_class("FreshKw")(), k=x)
+                return None
+            hn_p, hk_p = [ca._unbox(brine.load(brine.dump(cb._box(fn)))) for fn in (h_nested, h_kw)]
+            for form, hp, gfun in (("positional", h_p, g), ("nested tuple", hn_p, g_nested), ("keyword argument", hk_p, g_kw)):
+                t2 = Thing()
+                pack2 = get_id_pack(t2)
+                pack2 = (str(pack2[0]), pack2[1], pack2[2])
+                what = "request (fresh object, handed-back object as %s)" % form
+                try:
+                    hp(t2, gfun)
+                    ping_p()
+                    ping_p()
+                    if log.get("g_x") is not t2:
+                        errs.append("%s: the handler did not receive the original object (got %s)" % (
+                            what, type(log.get("g_x")).__name__))
+                    if not log.get("g_got_proxy"):
+                        errs.append("%s: the fresh object did not arrive as a proxy" % what)
+                    pend = log.get("pending")
+                    if pend is not None and pend.ready and pend.error:
+                        errs.append("%s was answered with an exception" % what)
+                except Exception as ex:  # noqa
+                    errs.append("%s with the release notice right behind it raised %s" % (what, type(ex).__name__.split(".")[-1]))
+                log.clear()
+                ping_p()
+                if pack2 in ca._local_objects._dict:
+                    errs.append("after the %s scenario the owner's table still holds the object" % what)
+                del t2
+            # (3) reply with the handed-back object in a nested tuple behind the fresh one
+            def f_nested(x):                           # runs at B
+                return (fresh_class("FreshInReplyNested")(), (x,))
+            fn_p = ca._unbox(brine.load(brine.dump(cb._box(f_nested))))
+            t3 = Thing()
             try:
-                h_p(t2, g)
-                ping_p()
-                ping_p()
-                if log.get("g_x") is not t2:
-                    errs.append("request (fresh object, handed-back object): the handler did not receive the original object"
-                                " (got %s)" % type(log.get("g_x")).__name__)
-                if not log.get("g_got_proxy"):
-                    errs.append("request (fresh object, handed-back object): the fresh object did not arrive as a proxy")
-                pend = log.get("pending")
-                if pend is not None and pend.ready and pend.error:
-                    errs.append("request (fresh object, handed-back object) was answered with an exception")
+                r = fn_p(t3)
+                if not (type(r) is tuple and type(r[1]) is tuple and r[1][0] is t3):
+                    errs.append("reply (fresh object, (handed-back object,)): the handed-back object is not the original")
+                del r
             except Exception as ex:  # noqa
-                errs.append("request (fresh object, handed-back object) with the release notice right behind it raised %s"
+                errs.append("reply (fresh object, (handed-back object,)) with the release notice right behind it raised %s"
                             % type(ex).__name__.split(".")[-1])
-            log.clear()
-            ping_p()
-            if pack2 in ca._local_objects._dict:
-                errs.append("after the request scenario the owner's table still holds the object")
+            fn_p = hn_p = hk_p = None
         except Exception as ex:  # noqa
             errs.append("the overtaking scenario raised %s: %s" % (type(ex).__name__.split(".")[-1], str(ex)[:100]))
         finally:
@@ -985,16 +1106,99 @@ def extra_release_overtakes():
     return errs
 
 
+class ZeroInt(int):
+    pass
+
+
+class Quiet(object):
+    def __bool__(self):
+        return False
+
+
+class Hollow(object):
+    def __len__(self):
+        return 0
+
+
+def extra_falsy_baton():
+    """objects that are falsy at their owner (empty containers, an int-subclass 0, `__bool__` False, `__len__` 0), lent
+    twice while the first proxy lives: the peer must see ONE proxy with count 2 (no request may be needed to find it in
+    the cache), and after it let go the owner's table is empty.  Baton mode, real INSPECT.  Real code only."""
+    import simnet
+    from rpyc.core import brine
+    from rpyc.lib import get_id_pack
+    errs = []
+    net = simnet.Net()
+    with net.installed():
+        ca, cb = net.connect_pair(compress=False)
+        try:
+            held = []
+
+            def sink(x):
+                held.append(x)
+                first = held[0]
+                return (x is first, object.__getattribute__(x, "____refcount__"), len(held))
+
+            def drop():
+                del held[:]
+
+            def ping():
+                return None
+            sink_p, drop_p, ping_p = [ca._unbox(brine.load(brine.dump(cb._box(f)))) for f in (sink, drop, ping)]
+            for name, obj in (("empty list", []), ("empty dict", {}), ("empty set", set()), ("empty bytearray", bytearray()),
+                              ("int-subclass 0", ZeroInt(0)), ("object with __bool__ False", Quiet()),
+                              ("object with __len__ 0", Hollow()), ("non-empty list", [1])):
+                pack = get_id_pack(obj)
+                pack = (str(pack[0]), pack[1], pack[2])
+                sink_p(obj)
+                same, count, n = sink_p(obj)
+                if not same:
+                    errs.append("%s received again while its proxy is alive is a different proxy" % name)
+                elif count != 2:
+                    errs.append("%s received twice: the proxy counts %d references" % (name, count))
+                slot = ca._local_objects._dict.get(pack)
+                if slot is None or slot[1] != 1:
+                    errs.append("%s lent twice: owner's slot is %r" % (name, None if slot is None else slot[1]))
+                drop_p()
+                ping_p()
+                ping_p()
+                if pack in ca._local_objects._dict:
+                    errs.append("%s is still in the owner's table after the peer let go of it" % name)
+        except Exception as ex:  # noqa
+            errs.append("the falsy-object scenario raised %s: %s" % (type(ex).__name__.split(".")[-1], str(ex)[:100]))
+        finally:
+            sink_p = drop_p = ping_p = None
+            net.shutdown([ca])
+    return errs
+
+
+def _bounded_extra(name, fn):
+    def run():
+        status, res = bounded(fn, 30.0)
+        if status == "blocked":
+            return ["the scenario %s did not come to an end: a request was never answered" % name]
+        if status == "raised":
+            return ["the scenario %s raised %r" % (name, res)]
+        return res
+    return run
+
+
 def extras():
-    return {"dynclass-baton": extra_dynclass_baton, "release-overtakes-reference": extra_release_overtakes}
+    table = {"dynclass-baton": extra_dynclass_baton, "release-overtakes-reference": extra_release_overtakes,
+             "falsy-objects-baton": extra_falsy_baton}
+    return dict((name, _bounded_extra(name, fn)) for name, fn in table.items())
 
 
 # ---------------------------------------------------------------------------------------------- direct oracle
-def oracle_history(ops, n=N_OBJS, close_side="A", kinds=None):
-    """the property statement evaluated on the real code for one history; None if it holds, else what failed"""
+def oracle_history(ops, n=N_OBJS, close_side="A", kinds=None, ending=None):
+    """the property statement evaluated on the real code for one history; None if it holds, else what failed.
+    `ending` = [side, hook]: who closes at the end and with which before_closed hook"""
     try:
         has_close = any(o[0] == "close" for o in ops)
-        done, snaps, errs = run_history(ops, n=n, final=not has_close, close_side=close_side, kinds=kinds)
+        if ending:
+            close_side = ending[0]
+        done, snaps, errs = run_history(ops, n=n, final=not has_close, close_side=close_side, kinds=kinds,
+                                        close_hook=ending[1] if ending else None)
         # a request the peer made through a live proxy must never be answered with an exception
         for o, s in zip(done, snaps):
             out = s.split(" ", 1)[0]
@@ -1030,41 +1234,50 @@ def strip_closing(ops):
     return ops
 
 
+def ending_of(ops):
+    """[side, hook] of the close that ended a recorded history"""
+    if ops and ops[-1][0] == "close":
+        return [ops[-1][1], ops[-1][2] if len(ops[-1]) > 2 else None]
+    return None
+
+
 def oracle_search(ctx, corr, broken):
     deadline = time.time() + ctx.budget(60, 600)
     r = Rng(ctx.seed).fork("c10-search")
 
-    def found(ops, n, msg, kinds):
-        ops = shrink(ops, n, lambda cand: oracle_history(cand, n, kinds=kinds) is not None)
-        msg = oracle_history(ops, n, kinds=kinds) or msg
+    def found(ops, n, msg, kinds, ending=None):
+        ops = shrink(ops, n, lambda cand: oracle_history(cand, n, kinds=kinds, ending=ending) is not None)
+        msg = oracle_history(ops, n, kinds=kinds, ending=ending) or msg
         sig = "c10:" + msg.split(";")[0].split(":")[0][:60]
         if sig in getattr(ctx, "known_signatures", set()):
             return None
-        return dict(kind="history", n=n, ops=ops, kinds=kinds), msg, sig
+        return dict(kind="history", n=n, ops=ops, kinds=kinds, ending=ending), msg, sig
     # 1. disagreeing cases
     for d in corr.disagreements[:60]:
         case = d.get("case") or {}
         if case.get("kind") == "extra":
             continue
+        ending = ending_of(case.get("ops") or [])
         ops = strip_closing(case.get("ops") or [])
         n = case.get("n", N_OBJS)
         kinds = case.get("kinds")
         try:
-            msg = oracle_history(ops, n, kinds=kinds)
+            msg = oracle_history(ops, n, kinds=kinds, ending=ending)
         except Exception as ex:  # noqa
             msg = None
         if msg:
-            res = found(ops, n, msg, kinds)
+            res = found(ops, n, msg, kinds, ending)
             if res:
                 return res
         if time.time() > deadline:
             return None
     # 2. boundary corpus
-    for ops in CORPUS:
+    for j, ops in enumerate(CORPUS):
         for kinds in PALETTES[N_OBJS]:
-            msg = oracle_history(ops, kinds=kinds)
+            ending = ["AB"[j % 2], HOOKS[j % 4]]
+            msg = oracle_history(ops, kinds=kinds, ending=ending)
             if msg:
-                res = found(ops, N_OBJS, msg, kinds)
+                res = found(ops, N_OBJS, msg, kinds, ending)
                 if res:
                     return res
     for name, fn in sorted(extras().items()):
@@ -1077,11 +1290,13 @@ def oracle_search(ctx, corr, broken):
         rr = r.fork("s%d" % i)
         i += 1
         kinds = palette(N_OBJS, i)
-        done, snaps, errs = run_history([], gen=lambda w: random_op(rr, w, N_OBJS), length=rr.range(6, 30), kinds=kinds)
+        ending = ["AB"[i % 2], HOOKS[i % 4]]
+        done, snaps, errs = run_history([], gen=lambda w: random_op(rr, w, N_OBJS), length=rr.range(6, 30), kinds=kinds,
+                                        close_side=ending[0], close_hook=ending[1])
         ops = strip_closing(done)
-        msg = oracle_history(ops, kinds=kinds)
+        msg = oracle_history(ops, kinds=kinds, ending=ending)
         if msg:
-            res = found(ops, N_OBJS, msg, kinds)
+            res = found(ops, N_OBJS, msg, kinds, ending)
             if res:
                 return res
     return None
@@ -1090,10 +1305,11 @@ def oracle_search(ctx, corr, broken):
 def replay(case):
     if case.get("kind") == "extra":
         return dict(case=case, implementation=extras()[case["name"]]() or "holds")
-    ops, n, kinds = case["ops"], case.get("n", N_OBJS), case.get("kinds")
+    ops, n, kinds, ending = case["ops"], case.get("n", N_OBJS), case.get("kinds"), case.get("ending")
     has_close = any(o[0] == "close" for o in ops)
-    done, snaps, errs = run_history(ops, n=n, final=not has_close, kinds=kinds)
+    done, snaps, errs = run_history(ops, n=n, final=not has_close, kinds=kinds, close_side=ending[0] if ending else "A",
+                                    close_hook=ending[1] if ending else None)
     model = run_driver([model_line(done, n)], exe="drv_box")[0].split(" | ")
     return dict(case=case, ops_run=[op_text(o) for o in done], implementation=snaps, model=model,
                 first_difference=next((i for i, (a, b) in enumerate(zip(snaps, model)) if a != b), None),
-                lent=kinds or palette(n, 0), oracle=oracle_history(ops, n, kinds=kinds) or "holds")
+                lent=kinds or palette(n, 0), oracle=oracle_history(ops, n, kinds=kinds, ending=ending) or "holds")
